@@ -551,6 +551,15 @@ def r35_6(ctx, m):
         if isinstance(st, ast.Assign) and isinstance(st.targets[0], ast.Name):
             loc[st.targets[0].id] = st.value
     npar = "n_sampling_points"
+    # roles: the pixel-unit images of the parameters start / end
+    role = {}
+    for nm_, v_ in loc.items():
+        if isinstance(v_, ast.BinOp) and isinstance(v_.op, (ast.Mult, ast.Div)):
+            sides = {src(v_.left), src(v_.right)} if isinstance(v_.op, ast.Mult) else {src(v_.left)}
+            if "start" in sides:
+                role[nm_] = A
+            elif "end" in sides:
+                role[nm_] = B
 
     class NU2(Exception):
         pass
@@ -563,10 +572,8 @@ def r35_6(ctx, m):
         if isinstance(e, ast.Name):
             if e.id == npar:
                 return n
-            if e.id == "start_iloc":
-                return A
-            if e.id == "end_iloc":
-                return B
+            if e.id in role:
+                return role[e.id]
             if e.id in loc:
                 return ev2(loc[e.id], depth + 1)
             raise NU2(e.id)
@@ -603,7 +610,14 @@ def r35_6(ctx, m):
         ctx.und("R35.7", key, f"not understood: {exc}", fi, mc[0])
     rets = [r for r in walk_no_nested(fi.node) if isinstance(r, ast.Return)]
     t = _norm(rets[0].value) if rets else ""
-    ctx.check("R35.7", f"{fi.key}::the sum is weighted with length / n", True if (".sum()*(dist/n_sampling_points)" in t or ".sum()*dist/n_sampling_points" in t) else None, t[-80:], fi)
+    lens = {nm_ for nm_, v_ in loc.items() if isinstance(v_, ast.Call) and call_name(v_) == "norm" and _norm(v_.args[0]) in ("end-start", "start-end")}
+    okw = None
+    if rets and isinstance(rets[0].value, ast.BinOp) and isinstance(rets[0].value.op, ast.Mult):
+        for a_, b_ in ((rets[0].value.left, rets[0].value.right), (rets[0].value.right, rets[0].value.left)):
+            if isinstance(a_, ast.Call) and call_name(a_) == "sum" and isinstance(b_, ast.BinOp) and isinstance(b_.op, ast.Div) \
+                    and src(b_.left) in lens and src(b_.right) == npar:
+                okw = True
+    ctx.check("R35.7", f"{fi.key}::the sum is weighted with length / n", okw, t[-80:], fi)
 
 
 _run_c35c = run
